@@ -1,6 +1,7 @@
 From Coq Require Import List NArith Bool Sorted.
 From V.gen Require Consts.
-From V.C17 Require Import Model Proofs.
+From V.C17 Require Import Model Proofs Timed TimedProofs Ingress IngressProofs.
+From V.C17 Require Glue GlueProofs.
 Import ListNotations.
 Open Scope N_scope.
 From V.C17 Require Import Properties.
@@ -78,3 +79,144 @@ Check (C17_default_config :
       (final (mkCfg V.gen.Consts.DEFAULT_MAX_RECORDS V.gen.Consts.DEFAULT_MAX_RECORD_SIZE_BYTES
              V.gen.Consts.DEFAULT_MAX_PROVIDER_KEYS V.gen.Consts.DEFAULT_MAX_PROVIDER_ADDRESSES
              V.gen.Consts.DEFAULT_MAX_PROVIDERS_PER_KEY ttl) h)).
+Check (C17_expiry_boundary_record :
+  forall r now, rec_expired r now = true <-> exists t, r_exp r = Some t /\ t <= now).
+Check (C17_expiry_boundary_provider :
+  forall p now, prov_expired p now = true <-> p_exp p <= now).
+Check (C17_get_complete :
+  forall s k now r,
+  snd (get s k now) = Some r <->
+  find_rec k (recs s) = Some r /\ (forall t, r_exp r = Some t -> now < t)).
+Check (C17_get_providers_complete :
+  forall s k now p,
+  In p (snd (get_providers s k now)) <->
+  exists ps, find_pk k (pkeys s) = Some ps /\ In p ps /\ now < p_exp p).
+Check (C17_provider_expiry :
+  forall c s k pid dist naddr now ps' p,
+  find_pk k (pkeys (fst (put_provider c s k pid dist naddr now))) = Some ps' ->
+  In p ps' -> p_dist p = dist ->
+  snd (put_provider c s k pid dist naddr now) = true ->
+  Inv c s -> 1 <= max_per_key c ->
+  p = mkProv pid dist (N.min naddr (max_addrs c)) (now + ttl c)).
+Check (C17_timed_refines_store :
+  forall c i h ts, ts_store (fst (trun c i ts h)) = fst (run c (ts_store ts) (erase_h h))).
+Check (C17_timed_bounds_sorted :
+  forall c i h, 1 <= max_per_key c -> Inv c (ts_store (tfinal c i h))).
+Check (C17_history_fresh :
+  forall c i h ts n o now x,
+  nth_error h n = Some (o, now) -> nth_error (snd (trun c i ts h)) n = Some x -> out_fresh now x).
+Check (C17_local_providers_sync :
+  forall c i h, QSync (tfinal c i h)).
+Check (C17_refresh_only_provided :
+  forall c i h n now l k q,
+  nth_error h n = Some (TPoll, now) ->
+  nth_error (snd (trun c i empty_tstore h)) n = Some (TFired l) ->
+  In (k, Some q) l ->
+  exists tsn, In k (locals (ts_store tsn)) /\ find_q k (ts_quorum tsn) = Some q /\
+              tsn = fst (trun c i empty_tstore (firstn n h))).
+Check (C17_refresh_after_interval :
+  forall c i h n now l k r,
+  mono 0 h ->
+  nth_error h n = Some (TPoll, now) ->
+  nth_error (snd (trun c i empty_tstore h)) n = Some (TFired l) ->
+  In (k, r) l ->
+  exists m o dist b, (m < n)%nat /\ nth_error h m = Some (o, b) /\
+    erase o = Some (OPutLocal k dist) /\
+    nth_error (snd (trun c i empty_tstore h)) m = Some (TOut (RBool true)) /\
+    b + i <= now).
+Check (C17_poll_fires_all_due :
+  forall c i ts now,
+  Forall (fun t => exists d, tm_due t = Some d /\ now < d) (ts_timers (fst (tstep c i ts TPoll now)))).
+Check (C17_refresh_future_count :
+  forall c i ts o now,
+  length (ts_timers (fst (tstep c i ts o now))) =
+  match o with
+  | TPoll => (length (ts_timers ts) - length (fired_timers i ts now))%nat
+  | _ =>
+      match erase o with
+      | Some (OPutLocal k dist) =>
+          if snd (put_local_provider c (ts_store ts) k dist now)
+          then S (length (ts_timers ts)) else length (ts_timers ts)
+      | _ => length (ts_timers ts)
+      end
+  end).
+Check (C17_refresh_futures_unbounded :
+  forall c i k dist q, 1 <= max_keys c ->
+  forall n, length (ts_timers (tfinal c i (repeat (TPutLocal k dist q, 0) n))) = n).
+Check (C17_loop_only_store_ops :
+  forall kc h st, Reach (k_scfg kc) (kstore st) (kstore (fst (krun kc st h)))).
+Check (C17_loop_bounds_sorted :
+  forall kc h, 1 <= max_per_key (k_scfg kc) -> Inv (k_scfg kc) (kstore (kfinal kc h))).
+Check (C17_loop_address_bound :
+  forall kc h, 1 <= max_per_key (k_scfg kc) ->
+  Forall (fun kp : N * list prov => Forall (fun p => p_naddr p <= WIRE_MAX_ADDRS) (snd kp))
+         (pkeys (kstore (kfinal kc h)))).
+Check (C17_manual_mode_no_remote_record :
+  forall kc st e,
+  ks_dead st = false -> remote e = true -> k_auto kc = false ->
+  forall k r, find_rec k (recs (kstore (fst (kstep kc st e)))) = Some r ->
+              find_rec k (recs (kstore st)) = Some r).
+Check (C17_remote_adds_only_sender :
+  forall kc st e from,
+  ks_dead st = false ->
+  match e with
+  | KPutValue f _ _ _ _ _ | KAddProvider f _ _ | KGetValue f _ | KGetProviders f _ => f = from
+  | _ => False
+  end ->
+  forall key ps' p, find_pk key (pkeys (kstore (fst (kstep kc st e)))) = Some ps' -> In p ps' ->
+    (exists ps, find_pk key (pkeys (kstore st)) = Some ps /\ In p ps) \/ p_id p = from).
+Check (C17_remote_keeps_local_registrations :
+  forall kc st e,
+  ks_dead st = false -> remote e = true ->
+  ts_quorum (ks_t (fst (kstep kc st e))) = ts_quorum (ks_t st) /\
+  locals (kstore (fst (kstep kc st e))) = locals (kstore st)).
+Check (C17_served_record_fresh :
+  forall kc st e key r ttl,
+  ks_dead st = false ->
+  (exists from, e = KGetValue from key) \/ e = KCmdGetRecord key ->
+  snd (kstep kc st e) = KRec (Some (r, ttl)) ->
+  r_key r = key /\ In r (recs (kstore st)) /\ rec_expired r (ks_now st) = false /\
+  match ttl with Some d => exists t, r_exp r = Some t /\ ks_now st < t /\ d = t - ks_now st
+               | None => r_exp r = None end).
+Check (C17_served_providers_fresh :
+  forall kc st from key l,
+  ks_dead st = false ->
+  snd (kstep kc st (KGetProviders from key)) = KProvs l ->
+  exists ps, ps = snd (get_providers (kstore st) key (ks_now st)) /\
+    l = map (fun p => (p_id p, serve_addrs kc p)) ps /\
+    Forall (fun p => prov_expired p (ks_now st) = false) ps /\
+    Forall (fun x : N * N => snd x <= WIRE_MAX_ADDRS) l).
+Check (C17_loop_refresh_armed :
+  forall kc st e,
+  ks_dead st = false -> ks_dead (fst (kstep kc st e)) = false -> KArmed (fst (kstep kc st e))).
+Check (C17_no_provider_twice_xor :
+  forall (hk hp : N -> N) c h,
+  1 <= max_per_key c -> (forall a b, hp a = hp b -> a = b) ->
+  history_consistent (fun k p => N.lxor (hp p) (hk k)) h ->
+  Forall (fun kp => NoDup (map p_id (snd kp))) (pkeys (final c h))).
+Check (C17_default_refresh_before_expiry :
+  V.gen.Consts.DEFAULT_PROVIDER_REFRESH_INTERVAL_SECS < V.gen.Consts.DEFAULT_PROVIDER_TTL_SECS /\
+  V.gen.Consts.DEFAULT_MAX_PROVIDER_ADDRESSES <= V.gen.Consts.KAD_MAX_ADDRESSES).
+Check (C17_source_tables_covered :
+  V.gen.C17Tables.store_methods = model_store_methods /\
+  V.gen.C17Tables.store_call_sites = model_call_sites /\
+  V.gen.C17Tables.store_actions = [0] /\
+  V.gen.C17Tables.quorum_variants = [0; 1; 2] /\
+  V.gen.C17Tables.validation_modes = [0; 1] /\
+  V.gen.C17Tables.config_fields = [0; 1; 2; 3; 4; 5; 6] /\
+  V.gen.C17Tables.config_defaults = [(0, 0); (1, 1); (2, 2); (3, 3); (4, 4); (5, 5); (6, 6)] /\
+  V.gen.C17Tables.builder_setters = [(0, 0); (1, 1); (2, 2); (3, 3); (4, 4); (5, 5); (6, 6)] /\
+  V.gen.C17Tables.clock_reads = [1; 3]).
+Check (C17_local_registrations_outlive_provider_keys :
+  exists c i h,
+    1 <= max_per_key c /\ max_keys c = 1 /\ mono 0 h /\
+    length (pkeys (ts_store (tfinal c i h))) = 1%nat /\
+    length (locals (ts_store (tfinal c i h))) = 2%nat /\
+    length (ts_quorum (tfinal c i h)) = 2%nat).
+Check (C17_oracle_invariant_sound :
+  forall c s, V.C17.Glue.inv_b c s = true -> Inv c s).
+Check (C17_oracle_invariant_complete :
+  forall c s, Inv c s -> Forall (fun kp => NoDup (map p_id (snd kp))) (pkeys s) ->
+  V.C17.Glue.inv_b c s = true).
+Check (C17_oracle_spec_is_theorem_spec :
+  forall n pr ps, V.C17.Glue.spec_put n pr ps = spec_put n pr ps).
